@@ -68,6 +68,8 @@ type FuncVC struct {
 	uses            []string
 	probes          []Probe
 	typeByID        map[string]types.Type
+	revealed        []string
+	footprints      map[string][]HeapKey
 	appNames        map[string]string
 	binderDepth     int // >0 while evaluating under a quantifier: no facts may be emitted (they would mention bound variables)
 }
@@ -130,6 +132,7 @@ func NewFuncVC(v *Verifier, fn *ssa.Function, con *Contract, prop string) *FuncV
 		inlined: map[string]bool{}, havoced: map[string]bool{}, assumed: map[string]bool{}, devirt: map[string]bool{}, maxInlineInstrs: 60, maxInlineDepth: 4}
 	if con != nil {
 		fv.nopanic = con.NoPanic
+		fv.revealed = con.Reveal
 	}
 	return fv
 }
